@@ -96,8 +96,8 @@ qb_ipc_shm_sendv(struct qb_ipc_one_way *one_way,
 {
 	char *dest;
 	int32_t res = 0;
-	int32_t total_size = 0;
-	int32_t i;
+	size_t total_size = 0;
+	size_t i;
 	char *pt = NULL;
 
 	if (one_way->u.shm.rb == NULL) {
